@@ -2276,7 +2276,11 @@ where
         let end = self.read.index();
         if should_replace && start < end {
             let slice = self.read.slice_unchecked(start, end);
-            *schema = crate::from_slice(slice)?;
+            *schema = crate::from_slice(slice).map_err(|err| {
+                // the position of the error is relative to the sub-slice
+                let index = start + err.offset();
+                Error::syntax(err.error_code(), self.read.as_u8_slice(), index)
+            })?;
         }
         Ok(())
     }
